@@ -75,11 +75,16 @@ def call_spec_fn(self, name, e, st):
         if lab not in st.labels:
             raise ContractError(f"unknown state label {lab}")
         o = st.labels[lab]
-        s = State(dict(o.env), dict(o.heap), st.pc, o.next_ref, o.ghost, o.labels)
+        s = State(dict(o.env), dict(o.heap), st.pc, o.next_ref, dict(o.ghost), o.labels)
         for k, v in st.env.items():
             if k.startswith("$q_"):
                 s.env[k[3:]] = v
                 s.env[k] = v
+            elif k not in s.env and k not in s.ghost:
+                s.env[k] = v          # a name that did not exist at the label: its current value (the HEAP is the label's)
+        for k, v in st.ghost.items():
+            if k not in s.ghost and k not in s.env:
+                s.ghost[k] = v        # same for ghost names (loop counters, key enumerations) introduced later
         v, _ = self.ev1(e.args[1], s)
         return v
     if name == "result":
